@@ -215,7 +215,10 @@ def _over_elements(it, ELEMS):
         return bool(mm) and mm[2] == ELEMS and not mm[3]
     b = match(("call", ("global", "enumerate"), (V("s"),), ()), it)
     if b:
-        return view(b["s"])
+        z = b["s"]
+        if z[0] == "call" and z[1] == ("global", "zip") and z[2] and not z[3]:
+            return all(view(a) for a in z[2])          # enumerate(zip(names, elements)): the same positions
+        return view(z)
     # a loop by position, `for k in range(len(<such a view>))`: the k-th iteration stands at position k (valueflow.simp reads X[k] of
     # a one-to-one view X of the same list as X's map of the list's element at that position)
     b = match(("call", ("global", "range"), (("call", ("global", "len"), (V("s"),), ()),), ()), it)
@@ -330,6 +333,57 @@ def _r7_replacement_survives(ctx, pkg):
     ctx.floor("R7", "library functions scanned", n, 180)
 
 
+def _result_lists_as_loops(fn):
+    """The rule reads the two result lists (and the term list of one matrix entry) as lists filled by `append` inside loops.  A list
+    of that role written as a comprehension -- `renorm = [g(spec) for spec in species]`, `terms = [f".." for spec in species if ..]` --
+    is rewritten as the loop it abbreviates (`X = []` + `for ..: if ..: X.append(..)`): by role, (a) a local handed to RenormContent(..),
+    (b) a local joined with " + " inside a nest of two loops.  Other comprehensions (names, counts, contributions) stay values."""
+    roles = set()
+    for c in ast.walk(fn):
+        if isinstance(c, ast.Call) and ast.unparse(c.func).split(".")[-1] == "RenormContent":
+            roles |= {a.id for a in list(c.args) + [k.value for k in c.keywords] if isinstance(a, ast.Name)}
+
+    def joined(node, depth):
+        for ch in ast.iter_child_nodes(node):
+            if isinstance(ch, (ast.FunctionDef, ast.AsyncFunctionDef, ast.Lambda, ast.ClassDef)):
+                continue
+            if depth >= 2 and isinstance(ch, ast.Call) and isinstance(ch.func, ast.Attribute) and ch.func.attr == "join" and isinstance(ch.func.value, ast.Constant) \
+                    and ch.func.value.value == " + " and ch.args:
+                roles.update(x.id for x in ast.walk(ch.args[0]) if isinstance(x, ast.Name))
+            joined(ch, depth + (1 if isinstance(ch, ast.For) else 0))
+    joined(fn, 0)
+
+    class T(ast.NodeTransformer):
+        def visit_Assign(self, st):
+            if not (len(st.targets) == 1 and isinstance(st.targets[0], ast.Name) and st.targets[0].id in roles and isinstance(st.value, ast.ListComp)):
+                return st
+            x = st.targets[0].id
+            body = ast.Expr(value=ast.Call(func=ast.Attribute(value=ast.Name(id=x, ctx=ast.Load()), attr="append", ctx=ast.Load()), args=[st.value.elt], keywords=[]))
+            for g in reversed(st.value.generators):
+                if g.is_async:
+                    return st
+                for c in reversed(g.ifs):
+                    body = ast.If(test=c, body=[body], orelse=[])
+                body = ast.For(target=g.target, iter=g.iter, body=[body], orelse=[])
+            for n in ast.walk(body):
+                if isinstance(n, (ast.Name, ast.Tuple, ast.List)) and isinstance(getattr(n, "ctx", None), ast.Store):
+                    pass
+            new = [ast.Assign(targets=[ast.Name(id=x, ctx=ast.Store())], value=ast.List(elts=[], ctx=ast.Load())), body]
+            for n in new:
+                ast.copy_location(n, st)
+                ast.fix_missing_locations(n)
+            return new
+
+        def visit_FunctionDef(self, n):
+            if n is fn:
+                self.generic_visit(n)
+            return n
+        visit_Lambda = visit_ClassDef = visit_AsyncFunctionDef = lambda self, n: n
+    if roles:
+        T().visit(fn)
+    return fn
+
+
 def _renorm_flow(pkg):
     """(function, value reconstruction) of TemplateLoader._prepare_renorm_content, spelling differences removed"""
     # helpers the method may have been split into (one matrix entry, one factor, ...) are put back first
@@ -338,7 +392,7 @@ def _renorm_flow(pkg):
     # enumerate loops they abbreviate
     import copy
     from ..normalize import index_loops_to_enumerate
-    fn = index_loops_to_enumerate(copy.deepcopy(fn))
+    fn = _result_lists_as_loops(index_loops_to_enumerate(copy.deepcopy(fn)))
 
     # small loop-free helpers the values pass through (a method of the class, a function of this module or one imported from another
     # module of the package) are read as what they return
@@ -825,10 +879,17 @@ def _r2_template(ctx, label, rel, pat):
     # RenormAbundance
     key = f"{label}:RenormAbundance"
     sts = _statements(_top_items(sk, "RenormAbundance"), r"ab\s*\[\s*\x00(\d+)\x00\s*\]\s*=\s*ab\s*\[\s*\x00(\d+)\x00\s*\]\s*\*\s*\(\s*\x00(\d+)\x00\s*\)\s*;", split_concat=True, tree=ctx.tree, rel=rel)
+    literal_prefix = False
+    if not sts:
+        # the prefix written as text in front of the printed alias: `ab[IDX_{{ spec.alias }}]` prints what `{{ spec.alias | prefix("IDX_") }}` prints
+        sts = _statements(_top_items(sk, "RenormAbundance"), r"ab\s*\[\s*IDX_\x00(\d+)\x00\s*\]\s*=\s*ab\s*\[\s*IDX_\x00(\d+)\x00\s*\]\s*\*\s*\(\s*\x00(\d+)\x00\s*\)\s*;", split_concat=True, tree=ctx.tree, rel=rel)
+        literal_prefix = bool(sts)
     if len(sts) != 1 or len(sts[0][1]) != 1:
         ctx.unrec("R2", key, (rel, 0), f"expected one statement `ab[IDX] = ab[IDX] * (factor);` inside one loop of RenormAbundance, found {len(sts)}")
         return
     (a, b, f), stack, line = sts[0]
+    if literal_prefix:
+        a, b = (("filter", "prefix", x, (("const", "IDX_"),), ()) for x in (a, b))
     it, seq = stack[0]
     idx = ("attr", ("name", "loop@1"), "index0")
     want_idx = _norm(("filter", "prefix", ("attr", ("item", SPECIES_T, idx), "alias"), (("const", "IDX_"),), ()))
@@ -1008,6 +1069,9 @@ MUTANTS = [
     {'name': 'count-table-position-loops-row-mass', 'file': FILE, 'old': '        matrix = []\n        for iele, einame in enumerate(elemnames):\n            for jele, ejname in enumerate(elemnames):\n                terms = ["0.0"]\n                for ispec, spec in enumerate(species):\n                    ci = spec.element_count.get(einame, 0)\n                    cj = spec.element_count.get(ejname, 0)\n                    if not spec.is_electron and ci and cj:\n                        terms.append(\n                            f"{(ci * cj * elements[jele].A)} * ab[IDX_{spec.alias}] / {spec.A} / Hnuclei"\n                        )\n                matrix.append(" + ".join(terms))\n', 'new': '        nelem = len(elemnames)\n        speccounts = [[spec.element_count.get(ename, 0) for ename in elemnames] for spec in species]\n        matrix = []\n        for iele in range(nelem):\n            for jele in range(nelem):\n                terms = ["0.0"]\n                for spec, counts in zip(species, speccounts):\n                    ci, cj = counts[iele], counts[jele]\n                    if spec.is_electron or not (ci and cj):\n                        continue\n                    terms.append(\n                        f"{(ci * cj * elements[iele].A)} * ab[IDX_{spec.alias}] / {spec.A} / Hnuclei"\n                    )\n                matrix.append(" + ".join(terms))\n', 'rules': ['R1']},
     {'name': 'terms-start-empty-no-zero', 'edits': [{'file': FILE, 'old': '                terms = ["0.0"]\n', 'new': '                terms = []\n'}], 'rules': ['R1']},
     {'name': 'factor-reversed-conditional-electron-gets-sum', 'file': FILE, 'old': 'renorm.append(1.0 if spec.is_electron else " + ".join(factor))', 'new': 'renorm.append(1.0 if not spec.is_electron else " + ".join(factor))', 'rules': ['R1']},
+    {'name': 'abundance-literal-prefix-wrong-species', 'file': OD_RENORM, 'old': '    {% set specidx = spec.alias | prefix("IDX_") -%}\n    ab[{{ specidx }}] = ab[{{ specidx }}] * ({{ fac }});\n', 'new': '    ab[IDX_{{ spec.alias }}] = ab[IDX_{{ network.species[0].alias }}] * ({{ fac }});\n', 'rules': ['R2']},
+    {'name': 'terms-comprehension-row-mass', 'file': FILE, 'old': '                terms = ["0.0"]\n                for ispec, spec in enumerate(species):\n                    ci = spec.element_count.get(einame, 0)\n                    cj = spec.element_count.get(ejname, 0)\n                    if not spec.is_electron and ci and cj:\n                        terms.append(\n                            f"{(ci * cj * elements[jele].A)} * ab[IDX_{spec.alias}] / {spec.A} / Hnuclei"\n                        )\n                matrix.append(" + ".join(terms))\n', 'new': '                terms = [\n                    f"{(spec.element_count.get(einame, 0) * spec.element_count.get(ejname, 0) * elements[iele].A)} * ab[IDX_{spec.alias}] / {spec.A} / Hnuclei"\n                    for spec in species\n                    if not spec.is_electron and spec.element_count.get(einame, 0) and spec.element_count.get(ejname, 0)\n                ]\n                matrix.append(" + ".join(["0.0"] + terms))\n', 'rules': ['R1']},
+    {'name': 'terms-comprehension-without-zero', 'file': FILE, 'old': '                terms = ["0.0"]\n                for ispec, spec in enumerate(species):\n                    ci = spec.element_count.get(einame, 0)\n                    cj = spec.element_count.get(ejname, 0)\n                    if not spec.is_electron and ci and cj:\n                        terms.append(\n                            f"{(ci * cj * elements[jele].A)} * ab[IDX_{spec.alias}] / {spec.A} / Hnuclei"\n                        )\n                matrix.append(" + ".join(terms))\n', 'new': '                terms = [\n                    f"{(spec.element_count.get(einame, 0) * spec.element_count.get(ejname, 0) * elements[jele].A)} * ab[IDX_{spec.alias}] / {spec.A} / Hnuclei"\n                    for spec in species\n                    if not spec.is_electron and spec.element_count.get(einame, 0) and spec.element_count.get(ejname, 0)\n                ]\n                matrix.append(" + ".join(terms))\n', 'rules': ['R1']},
 ]
 BENIGN = [
     {"name": "coefficient-commuted", "file": FILE, "old": "{(ci * cj * elements[jele].A)}", "new": "{(elements[jele].A * cj * ci)}"},
@@ -1051,4 +1115,7 @@ BENIGN = [
     {'name': 'zero-put-in-front-at-the-join', 'edits': [{'file': FILE, 'old': '                terms = ["0.0"]\n', 'new': '                terms = []\n'}, {'file': FILE, 'old': '                matrix.append(" + ".join(terms))\n', 'new': '                matrix.append(" + ".join(["0.0", *terms]))\n'}]},
     {'name': 'factor-conditional-reversed', 'file': FILE, 'old': 'renorm.append(1.0 if spec.is_electron else " + ".join(factor))', 'new': 'renorm.append(" + ".join(factor) if not spec.is_electron else 1.0)'},
     {'name': 'factor-filter-positive-count', 'file': FILE, 'old': '                if c\n', 'new': '                if c > 0\n'},
+    {'name': 'abundance-literal-prefix', 'file': OD_RENORM, 'old': '    {% set specidx = spec.alias | prefix("IDX_") -%}\n    ab[{{ specidx }}] = ab[{{ specidx }}] * ({{ fac }});\n', 'new': '    ab[IDX_{{ spec.alias }}] = ab[IDX_{{ spec.alias }}] * ({{ fac }});\n'},
+    {'name': 'terms-comprehension', 'file': FILE, 'old': '                terms = ["0.0"]\n                for ispec, spec in enumerate(species):\n                    ci = spec.element_count.get(einame, 0)\n                    cj = spec.element_count.get(ejname, 0)\n                    if not spec.is_electron and ci and cj:\n                        terms.append(\n                            f"{(ci * cj * elements[jele].A)} * ab[IDX_{spec.alias}] / {spec.A} / Hnuclei"\n                        )\n                matrix.append(" + ".join(terms))\n', 'new': '                terms = [\n                    f"{(spec.element_count.get(einame, 0) * spec.element_count.get(ejname, 0) * elements[jele].A)} * ab[IDX_{spec.alias}] / {spec.A} / Hnuclei"\n                    for spec in species\n                    if not spec.is_electron and spec.element_count.get(einame, 0) and spec.element_count.get(ejname, 0)\n                ]\n                matrix.append(" + ".join(["0.0"] + terms))\n'},
+    {'name': 'matrix-columns-enumerate-zip', 'file': FILE, 'old': '            for jele, ejname in enumerate(elemnames):\n', 'new': '            for jele, (ejname, ejelem) in enumerate(zip(elemnames, elements)):\n'},
 ]
